@@ -64,6 +64,45 @@ func init() {
 	})
 }
 
+// op "wedge": an in-process client that misbehaves on its output and then never ends (see
+// verif_export_c10wedge.go).  Each scenario waits for the runner's own timers (about 5 s); they run
+// side by side with the real-process scenarios.
+type c10WedgeIn struct {
+	cc.VerifC10WedgeSpec
+}
+
+func init() {
+	gen.RegisterOp("c10", "wedge", func(_ *gen.Ctx, raw json.RawMessage) any {
+		return cc.VerifC10Wedge(gen.Into[c10WedgeIn](raw).VerifC10WedgeSpec)
+	})
+}
+
+func c10WedgeScenarios(c *gen.Ctx) []any {
+	var ins []any
+	add := func(n, pos int, bad, mode string) {
+		ins = append(ins, c10WedgeIn{cc.VerifC10WedgeSpec{N: n, Pos: pos, Bad: bad, Mode: mode, TimeoutS: 20}})
+		c.E.Count("wedge:" + bad + ":" + mode)
+	}
+	add(1, 0, "text", "writes")
+	add(3, 1, "garbage", "writes")
+	add(2, 2, "dup", "writes")
+	add(2, 0, "unknown", "deaf")
+	add(3, c.R.Range(0, 3), "over", gen.Pick(c.R, []string{"writes", "deaf"}))
+	if c.Thorough() {
+		for _, bad := range []string{"text", "over", "garbage", "unknown", "dup"} {
+			for _, mode := range []string{"writes", "deaf"} {
+				n := c.R.Range(1, 4)
+				pos := c.R.Range(0, n)
+				if bad == "dup" && pos == 0 {
+					pos = 1
+				}
+				add(n, pos, bad, mode)
+			}
+		}
+	}
+	return ins
+}
+
 func c10Perms(n int) [][]int {
 	if n == 0 {
 		return [][]int{{}}
@@ -119,8 +158,20 @@ func c10Distinct(n int) []int {
 }
 
 func runC10(c *gen.Ctx) error {
-	// real OS processes first (they take seconds; see oscmd.go)
-	c.DoParallel("oscmd", oscmdClientScenarios(c), 4)
+	// real OS processes and in-process clients that never end first (they wait for the runner's
+	// timers: seconds; see oscmd.go) — all side by side
+	{
+		slow := oscmdClientScenarios(c)
+		opsOf := make([]string, len(slow))
+		for i := range opsOf {
+			opsOf[i] = "oscmd"
+		}
+		for _, w := range c10WedgeScenarios(c) {
+			slow = append(slow, w)
+			opsOf = append(opsOf, "wedge")
+		}
+		c.DoParallelOps(opsOf, slow, len(slow))
+	}
 
 	reps := 6
 	workers := 8
